@@ -137,11 +137,13 @@ func c01Ask(s *drv.Server, rel string, kind string, line, ch int) error {
 type c01Doc struct {
 	text string
 	desc string
+	// other: content of the second workspace file (default: the scope family's o.lua)
+	other string
 }
 
 func c01Docs(tier string) []c01Doc {
 	var out []c01Doc
-	add := func(t, d string) { out = append(out, c01Doc{t, d}) }
+	add := func(t, d string) { out = append(out, c01Doc{t, d, ""}) }
 	for _, t := range []string{"", "\n", "\r", "😀", "a", "\xef\xbb\xbf", "--", "---@", "---@type", "---@class", "---@alias", "---|", "--[[", "[[", "\"", "a.", "a:", "a(", "a[", "{", "local", "function"} {
 		add(t, "degenerate document")
 	}
@@ -172,6 +174,15 @@ func c01Docs(tier string) []c01Doc {
 		"---@type fun(", "---@field", "---@param", "---@return", "---@generic", "---@overload", "---@vararg", "---@enum start\nlocal e = (1)\n---@enum end", "---@type \"", "---@alias OpenMode \"",
 		"---@class A\n---@field x A\n---@type A", "---@type A | B | \"s\"", "---|", "---| \"r\" # c"} {
 		add(l+"\nlocal v = {}\nlocal w = v[1]\nprint(v.x, w, v[\"k\"])\n", "annotation block above a declaration")
+	}
+	// function-type aliases (also chained) declared in ANOTHER file than the one that uses them
+	for _, m := range []string{
+		"---@type Handler\nlocal h = nil\nlocal r = h(1)\nprint(r)\n",
+		"---@param cb Mid\nlocal function use(cb) return cb(2) end\nuse(nil)\n",
+		"---@type Mid\nlocal h2 = nil\nprint(h2(3))\n---@type Handler | Mid\nlocal h3\nprint(h3(4))\n",
+		"---@class Box\n---@field on Handler\nlocal box = {}\nbox.on(5)\nlocal q = box.on\nq(6)\n",
+	} {
+		out = append(out, c01Doc{m, "function-type alias declared in another file", "---@alias Handler fun(x: number): string\n---@alias Mid Handler\n---@alias Loop Loop2\n---@alias Loop2 Loop\n"})
 	}
 	// names and prefixes the analysis special-cases (_G, self, _ENV, require, a string or literal where a table name is
 	// expected) in every syntactic role of a small statement list; thorough: every ordered pair of statements
@@ -211,7 +222,11 @@ func c01PositionSpace(tier string) *core.Space {
 			d := docs[i]
 			r.Evaluated++
 			vrt.TakeRecovered()
-			root := drv.NewWorkspace(map[string]string{"m.lua": d.text, "o.lua": otherLua})
+			oth := otherLua
+			if d.other != "" {
+				oth = d.other
+			}
+			root := drv.NewWorkspace(map[string]string{"m.lua": d.text, "o.lua": oth})
 			defer drv.RemoveWorkspace(root)
 			fail := func(sig string, det map[string]interface{}) {
 				det["m.lua"] = d.text
